@@ -524,7 +524,7 @@ impl Runner {
             (_, 0) => None,
             (Some(q), 1) => Some(q),
             (Some(q), 2) => Some(q.saturating_sub(1)),
-            (Some(q), 3) => Some(q + 1),
+            (Some(q), 3) => Some(q.saturating_add(1)),
             (Some(q), 4) => Some(q / 2),
             (Some(q), 5) => Some(q.saturating_mul(2)),
             (_, 6) => Some(0),
